@@ -222,7 +222,8 @@ func (g *Generator) Generate(dict *dictionary.Dictionary) ([]byte, error) {
 			}
 
 			invalid := false
-			if len(attr.OID) != 1 {
+			if len(attr.OID) != 1 || attr.OID[0] < 0 || attr.OID[0] > 255 {
+				// the vendor helpers take the attribute number as a byte
 				invalid = true
 			}
 			if attr.Size.Valid {
